@@ -1126,7 +1126,7 @@ func clauseCommitNoEffectWhenClosed(c *Ctx, id string) {
 		return
 	}
 	n := 0
-	for _, lit := range withAnon(f) {
+	for _, lit := range c.withHelpers(f) {
 		open := condEdges(lit, func(cond ssa.Value) int {
 			if call, ok := stripConv(cond).(*ssa.Call); ok && calleeID(call) == "cache.(*directoryCache).isClosed" {
 				return -1
@@ -1208,33 +1208,47 @@ func clauseDetachWithChildren(c *Ctx, id string) {
 // clauseClientPropagatesRPCErrors: the fuse-manager client reports success only when the manager's RPC succeeded.
 func clauseClientPropagatesRPCErrors(c *Ctx, id string) {
 	const fp = "fusemanager"
-	c.clause(id, "T1", "every fuse-manager client wrapper (init, Mount, Check, Unmount) returns nil only on the success edge of its RPC: a failed initialisation/restoration or mount is reported to the snapshotter", 4)
-	for _, nm := range []string{"(*Client).init", "(*Client).Mount", "(*Client).Check", "(*Client).Unmount"} {
-		f := c.mustFn(fp, nm)
-		if f == nil {
+	c.clause(id, "T1", "every fuse-manager client function that issues the Init, Mount, Check or Unmount RPC returns nil only on the success edge of that RPC: a failed initialisation/restoration or mount is reported to the snapshotter", 4)
+	for _, f := range c.pkgFuncs(fp) {
+		if f.Parent() != nil {
 			continue
 		}
-		want := strings.TrimPrefix(nm, "(*Client).")
-		want = strings.ToUpper(want[:1]) + want[1:]
-		var se []edge
-		for _, ci := range callsIn(f, func(_ string, ci ssa.CallInstruction) bool {
-			return ci.Common().IsInvoke() && ci.Common().Method.Name() == want
-		}) {
-			se = append(se, successEdges(f, ci)...)
-		}
-		good, n := len(se) > 0, 0
-		detail := ""
-		for _, r := range realReturns(f) {
-			if !returnsNilError(r) {
+		for _, want := range []string{"Init", "Mount", "Check", "Unmount"} {
+			var se []edge
+			var rpc ssa.CallInstruction
+			for _, ci := range callsIn(f, func(_ string, ci ssa.CallInstruction) bool {
+				return ci.Common().IsInvoke() && ci.Common().Method.Name() == want && strings.HasSuffix(typeQName(ci.Common().Value.Type()), "StargzFuseManagerServiceClient")
+			}) {
+				rpc = ci
+				se = append(se, successEdges(f, ci)...)
+			}
+			if rpc == nil {
 				continue
 			}
-			n++
-			if o, path := mustPass(f, r, newCuts().addEdges(se)); !o {
-				good = false
-				detail = c.pathStr(f, path)
+			// the function must have an error result
+			res := f.Signature.Results()
+			if res.Len() == 0 || !isErrorType(res.At(res.Len()-1).Type()) {
+				c.bad(c.fnKey(f)+":rpc-error-propagated:"+want, rpc.Pos(), "the "+want+" RPC is issued by a function that cannot report its failure")
+				continue
 			}
+			good, n := len(se) > 0, 0
+			detail := ""
+			for _, r := range realReturns(f) {
+				if !returnsNilError(r) {
+					continue
+				}
+				// only returns that lie after the RPC
+				if hit, _ := reach(f, rpc, isInstr(r), nil); hit == nil {
+					continue
+				}
+				n++
+				if o, path := mustPass(f, r, newCuts().addEdges(se)); !o {
+					good = false
+					detail = c.pathStr(f, path)
+				}
+			}
+			c.verdict(c.fnKey(f)+":rpc-error-propagated:"+want, rpc.Pos(), good && n > 0, "nil only after the "+want+" RPC succeeded", "the client can report success although the "+want+" RPC failed (e.g. a restoration that failed during Init): the snapshotter starts with recorded mountpoints that nothing serves: "+detail)
 		}
-		c.verdict(c.fnKey(f)+":rpc-error-propagated", f.Pos(), good && n > 0, "nil only after the "+want+" RPC succeeded", "the client wrapper can report success although the "+want+" RPC failed (e.g. a restoration that failed during Init): the snapshotter starts with recorded mountpoints that nothing serves: "+detail)
 	}
 }
 
@@ -1685,7 +1699,24 @@ func clauseMediaTypeBySharedPredicate(c *Ctx, id string) {
 				continue
 			}
 			n++
-			uses := len(callsIn(f, func(id string, _ ssa.CallInstruction) bool { return strings.HasSuffix(id, "converter/uncompress.IsUncompressedType") })) > 0
+			uses := false
+			seenFn := map[*ssa.Function]bool{}
+			var look func(g *ssa.Function, d int)
+			look = func(g *ssa.Function, d int) {
+				if g == nil || seenFn[g] || d > 2 {
+					return
+				}
+				seenFn[g] = true
+				for _, ci := range callsIn(g, func(string, ssa.CallInstruction) bool { return true }) {
+					if strings.HasSuffix(calleeID(ci), "converter/uncompress.IsUncompressedType") {
+						uses = true
+					}
+					if t := staticFn(ci); t != nil && t.Pkg == f.Pkg && len(t.Blocks) > 0 {
+						look(t, d+1) // a same-package helper that computes the media type
+					}
+				}
+			}
+			look(f, 0)
 			c.verdict(c.fnKey(f)+":media-type-predicate", f.Pos(), uses, "uses uncompress.IsUncompressedType", "the converter rewrites the media type by its own table instead of containerd's IsUncompressedType: an uncompressed type missing from the table (docker foreign layer) keeps its media type although the committed blob is gzip")
 		}
 	}
@@ -2454,4 +2485,73 @@ func clauseGivenUpResultIsReleased(c *Ctx, id string) {
 		}
 	}
 	c.verdict(c.fnKey(f)+":late-result-released", sel.Pos(), released && len(te) > 0, "the timeout path starts a receiver that releases a late result", "after the timeout nobody receives the layer the goroutine may still deliver: its reference is never released and the layer stays pinned with its cache directories")
+}
+
+// clauseEmptyURLLabelIsNoURL: the writers always store the urls labels (value "" for a layer without URLs); the readers
+// must not turn the empty value into one empty URL.
+func clauseEmptyURLLabelIsNoURL(c *Ctx, id string) {
+	c.clause(id, "T1", "both label readers split a urls label only behind a test that its value is not empty (strings.Split(\"\", \",\") is one empty URL, not none)", 4)
+	for _, x := range [][2]string{{"fs/source", "FromDefaultLabels"}, {"service", "sourceFromCRILabels"}} {
+		root := c.mustFn(x[0], x[1])
+		if root == nil {
+			continue
+		}
+		for _, f := range withAnon(root) {
+			for _, sp := range callsIn(f, idIs("strings.Split")) {
+				// the value being split comes from a lookup of a urls label
+				var lkv ssa.Value
+				for _, v := range append([]ssa.Value{sp.Common().Args[0]}, reachingVals(sp.Common().Args[0])...) {
+					v = stripConv(v)
+					if ex, ok := v.(*ssa.Extract); ok && ex.Index == 0 {
+						if lk, ok := ex.Tuple.(*ssa.Lookup); ok {
+							ks, isC := constString(lk.Index)
+							if (isC && strings.HasSuffix(ks, "/urls")) || func() bool {
+								b, ok := stripConv(lk.Index).(*ssa.BinOp)
+								if !ok || b.Op != token.ADD {
+									return false
+								}
+								s, ok := constString(b.X)
+								return ok && strings.HasSuffix(s, "urls.")
+							}() {
+								lkv = ex
+							}
+						}
+					}
+				}
+				if lkv == nil {
+					continue
+				}
+				nonEmpty := condEdges(f, func(cond ssa.Value) int {
+					b, ok := cond.(*ssa.BinOp)
+					if !ok || (b.Op != token.NEQ && b.Op != token.EQL && b.Op != token.GTR) {
+						return 0
+					}
+					// v != "" / v == "" / len(v) > 0
+					if s, ok := constString(b.Y); ok && s == "" && flowsFrom(stripConv(b.X), lkv, 0) {
+						if b.Op == token.NEQ {
+							return 1
+						}
+						if b.Op == token.EQL {
+							return -1
+						}
+					}
+					if lc, ok := stripConv(b.X).(*ssa.Call); ok {
+						if bi, ok := lc.Call.Value.(*ssa.Builtin); ok && bi.Name() == "len" && flowsFrom(stripConv(lc.Call.Args[0]), lkv, 0) {
+							if n, ok := constInt(b.Y); ok && n == 0 {
+								switch b.Op {
+								case token.GTR, token.NEQ:
+									return 1
+								case token.EQL:
+									return -1
+								}
+							}
+						}
+					}
+					return 0
+				})
+				okp, _ := mustPass(f, sp, newCuts().addEdges(nonEmpty))
+				c.verdict(c.fnKey(f)+":urls-split-non-empty", sp.Pos(), okp && len(nonEmpty) > 0, "split only when the label value is not empty", "a urls label with the empty value (written for every layer without URLs) is split into one empty URL: the layer's source is reconstructed with URLs [\"\"] instead of none")
+			}
+		}
+	}
 }
